@@ -229,6 +229,9 @@ def _z3_try(pc, defs, f, z3_ms, fast=False):
     if defs:
         stages.append((pc, False, 1500))
     stages.append((pc, True, z3_ms))
+    # first of all the complete query with a small budget: easy goals are decided at once either way (a counter-model of the
+    # complete query is trustworthy), only the hard ones go through the abstraction stages
+    stages.insert(0, (pc, True, -800 if quant else 800))
     if fast:
         stages = [(pc, True, -z3_ms if quant else z3_ms)]
     for hyps, with_defs, ms in stages:
@@ -245,6 +248,8 @@ def _z3_try(pc, defs, f, z3_ms, fast=False):
         r = s.check()
         if r == z3.unsat:
             return "proved", None, "", s
+        if r == z3.sat and hyps is pc and with_defs:
+            break
     if r == z3.sat:
         try:
             m = model_to_dict(s.model())
